@@ -239,7 +239,15 @@ func runCheck(repo, verif, prop, tier, onlyRule string, dump, noSelf bool) int {
 		switch o.Status {
 		case Violated:
 			if kf := matchKnown(known, o); kf != nil {
-				knownHit = append(knownHit, *kf)
+				// a recorded finding is a finding of the properties it was recorded for; a rule that also serves other
+				// properties does not make it one of theirs (integer division of mixed signs is outside what C05 pins)
+				inScope := len(kf.Properties) == 0 || prop == ""
+				for _, kp := range kf.Properties {
+					inScope = inScope || kp == prop
+				}
+				if inScope {
+					knownHit = append(knownHit, *kf)
+				}
 				continue
 			}
 			viol = append(viol, o)
